@@ -5,7 +5,7 @@
    reals + one absorbing NaN); only the standard-library Reals axioms.                                   *)
 From Coq Require Import ZArith List Reals.
 From Tevec Require Import Base.Prelude Base.Num Base.XR Model.Driver Proofs.Driver Model.Cmp Spec.Extrema
-     Proofs.IdxRun Proofs.Cmp Proofs.Rank Spec.Stats Model.Features Model.Norm Proofs.Norm Proofs.MinMax.
+     Proofs.IdxRun Proofs.Cmp Proofs.RollRank Spec.Stats Model.Features Model.Norm Proofs.Norm Proofs.MinMax.
 Import ListNotations.
 
 (* the comparisons of isnone.rs at the integer carrier are the null-last order *)
